@@ -34,6 +34,8 @@ CHECKS = {
          "Every prefix of the store-write sequence of commit (1-2 workers, 1-2 blocks), packfile receive (one or many packfiles) and prune, as process death (no later write takes effect) or a single write error: refs resolve to readable commits, commits have parents, a branch never points at a commit lacking its table, every present table has blocks, block indices and table index; re-running succeeds and ends with the same refs/tables/history as an uninterrupted run. Stores with atomic calls stand in for badger/SQLite; the cobra layer and real process kills are outside.", "4 C13"),
  "C14": ("fault_enumeration", "symbolic execution of transaction.Commit/Discard with the failing store-write index and fault kind as SMT variables and the branch visiting order as a choice point",
          "1-2 (quick) / 1-3 (thorough) staged branches (new/existing), fault at every store write (crash or error), then re-run: all-or-nothing, no duplicate commit, one log entry with true old/new per branch; commit/discard after commit are refused and change nothing. In-memory stores with atomic calls stand in for SQLite/badger.", "4 C14"),
+ "C15": ("model_checking", "symbolic execution of refsql.filterQuery on a symbolic prefix and ref name; its WHERE clause is evaluated by the documented SQLite operator contract and compared with literal prefix matching by SMT; counterexamples confirmed against real SQLite",
+         "ONLY the literal-prefix sub-claim of C15: for every prefix of 1-2 (quick) / 1-3 (thorough) and name of 1-3 / 1-4 printable ASCII characters, listing by prefix selects exactly the names that literally start with it (case-sensitively, no wildcard meaning). Operation sequences, log ordinals, rename/copy carrying logs are SQL executed inside SQLite (cgo) and os calls in the file store: not decided by this technique (DESIGN section 5).", "4 C15"),
  "C17": ("model_checking", "bounded symbolic execution of each decoder entry point over a fully symbolic N-byte buffer; panics, step budget and attacker-controlled allocation sizes decided by SMT",
          "ValidateBlockBytes, ValidateStrListBytes, StrListDecoder.Read/ReadBytes, ReadBlockFrom, ReadBlockIndex, UintListDecoder.Read, PackfileReader, ReadPktLine on ALL byte strings of length N <= 8..14 (quick) / 12..40 (thorough): outcome must be value-or-error, steps bounded, no single allocation > 1 MiB. Values >= 24 at sites needing a concrete size are explored through boundary representatives only (stated as a cut).", "4 C17"),
  "C18": ("model_checking", "bounded symbolic execution of the stream decoders over a reader whose per-call read sizes and data+EOF delivery are choice points",
@@ -46,7 +48,6 @@ CHECKS = {
 
 NOT_APPLICABLE = {
  "C09": "end-to-end fetch/push needs HTTP+gzip+JSON and a server that is not in this repository; the mechanisms are decided under C07, C08, C10, C11 (DESIGN section 5)",
- "C15": "behaviour of SQL statements executed inside SQLite through cgo and of os calls in the file store cannot be executed by the symbolic interpreter (DESIGN section 5); the literal-prefix sub-claim is planned",
  "C16": "goroutine interleavings below the cooperative scheduler are not encoded yet (DESIGN section 4, C16); termination/equivalence under the cooperative schedules is exercised by C01/C04/C19",
 }
 
